@@ -33,4 +33,25 @@ PROPS["C01"] = {
     "nontrivial_min_tokens": 30,
 }
 
+PROPS["C02"] = {
+    "level_text": "Theorems for ANY state of the four exhaustive kinds (flat, IVF, PQ, IVFPQ) and any request: every hit is justified by a resident, non-removed, eligible entry with the kind's score, the list is the exact top-k of the scanned candidates in ascending order with at most k entries, node-id search = search with the stored vector, unknown/removed node = error, and flush never changes an answer; HNSW soundness is covered by the HNSW model (C12). One generic Gallina model (soft-delete protocol + Execute pipeline + k-means training) is compared bit-for-bit with all kinds on generated histories every run.",
+    "level_note": "Trusted: Coq kernel, extraction, harness, float32=SpecFloat, sort.Slice is a sort. Multi-query aggregation is compared exactly unless a per-query cut falls inside a tie group (then soundness only; counted as 'weak').",
+    "correspondence": "{flat,ivf,pq,ivfpq}_index*.go + clustering.go ~ Model.VecIndex / Model.KMeans",
+    "assumptions": ["ids fresh per history", "nbits <= 8 (the property's quantifier)"],
+    "nontrivial_min_tokens": 30,
+}
+PROPS["C13"] = {
+    "level_text": "Theorems: untrained add/search is an error; for every probe count the IVF answer is the exact top-k, by true metric distance, of the live eligible vectors of the probed clusters; assignment is the first arg-min centroid by construction of the model. Full-probe = flat is decided per run by the history-based completeness oracle (spec_b) and bit-exact correspondence with k-means re-run inside the model.",
+    "level_note": "Trusted: as C02. 'full probe equals exact search' and rank-wise monotonicity in the probe count are checked on every sampled history by the extracted oracle, not yet closed as Coq theorems (partial).",
+    "correspondence": "ivf_index*.go + clustering.go ~ Model.VecIndex (KIVF) / Model.KMeans",
+    "assumptions": ["equidistant centroids at the probe boundary make the probed set ambiguous (unstable sort): such cases are compared for soundness only"],
+    "nontrivial_min_tokens": 30,
+}
+PROPS["C14"] = {
+    "level_text": "Theorems: every PQ/IVFPQ hit carries sqrt(sum_m table_m[code_m]) for the (residual) query tables and the answer is the exact top-k by that score; codes are the first arg-min codeword per subspace (mod 256, as uint8) by construction; tied to the code bit-for-bit incl. training (k-means re-run in the model).",
+    "level_note": "Trusted: as C02. The real-number reading (score = distance to the reconstruction; error <= quantisation error) is not machine-checked (partial). nbits>8 and IVFPQ.Train with n<2^nbits are known findings exercised separately.",
+    "correspondence": "pq_index*.go, ivfpq_index*.go ~ Model.VecIndex (KPQ, KIVFPQ)",
+    "nontrivial_min_tokens": 30,
+}
+
 NOT_YET = {}
